@@ -21,6 +21,9 @@ Text fields are hex (`.` = empty), `-` is None.
   L:0|1                                                fallback link 0 -> 1
   K:0|1                                                fallback link 1 -> 2
   V:cfg:k=v,k=v                                        update_vars
+  X:cfg:name                                           del cfg[name]
+  C:cfg                                                cfg.clear()
+  N                                                    nothing (the caller changed, in place, an object a getter handed out)
  queries
   g:cfg:key:value|-:section|-:default|-                cfg.get
   G:cfg:key:value|-:section|-:default|-:callvars:rdefault|-
@@ -179,6 +182,15 @@ def step (w : World) (op : String) : Option (World × String) :=
   | ["K", b] => do
     let b ← bool? b
     pure ({ w with linked2 := b }, "ok")
+  | ["X", c, name] => do
+    let i ← idx? c; let name ← unhx? name
+    match (w.get i).delSection name with
+    | .ok c' => pure (w.set i c', "ok")
+    | .error e => pure (w, s!"err:{showErr e}")
+  | ["C", c] => do
+    let i ← idx? c
+    pure (w.set i (w.get i).clear, "ok")
+  | ["N"] => pure (w, "ok")
   | ["V", c, d] => do
     let i ← idx? c; let d ← kvsStr? d
     pure (w.set i ((w.get i).updateVars d), "ok")
